@@ -412,6 +412,30 @@ def call_host(eng, fn, args, kwargs, st):
             return value
     if fn is decimal.Decimal:
         return mk_decimal(eng, args, kwargs, st)
+    if fn is decimal.getcontext and not args and not kwargs:
+        # the thread's decimal context is ghost state: an opaque token naming which context is
+        # current ("ambient" = the caller's); numeric results never depend on it (enclosures hold
+        # for every context with prec >= 28), the frame condition is that it is the caller's again
+        # whenever the function is left
+        return DecimalContextToken(st.ghost.get("decimal-context", "ambient"))
+    if fn is decimal.setcontext and len(args) == 1 and not kwargs:
+        c = args[0]
+        if isinstance(c, DecimalContextToken):
+            name = c.name
+        elif c is decimal.DefaultContext:
+            name = "a copy of decimal.DefaultContext"
+        elif c is decimal.BasicContext or c is decimal.ExtendedContext or isinstance(c, decimal.Context):
+            name = "another context (%s)" % type(c).__name__
+        else:
+            raise Unsupported("setcontext(%r)" % (type(c).__name__,))
+        old = st.ghost.get("decimal-context", "ambient")
+        st.ghost["decimal-context"] = name
+
+        def undo():
+            st.ghost["decimal-context"] = old
+
+        st.log(undo)
+        return None
     if fn is builtins.print:
         return do_print(eng, args, kwargs, st)
     if fn is builtins.input or getattr(fn, "__name__", "") == "raw_input":
@@ -438,6 +462,13 @@ def call_host(eng, fn, args, kwargs, st):
             conds.append(z3.BoolVal(c) if isinstance(c, bool) else c)
         return mk_bool(_and(conds) if fn is builtins.all else _or(conds))
     if fn is builtins.tuple:
+        if args and isinstance(args[0], GList) and any(not z3.is_true(g) for g, _ in args[0].items):
+            try:
+                return tuple(eng.iterate(args[0], st, fork_ok=False))
+            except Unsupported:
+                # conditionally present elements: kept as a guarded sequence (that it is a tuple
+                # rather than a list is not tracked)
+                return GTuple(args[0].items)
         return tuple(eng.iterate(args[0], st)) if args else ()
     if fn is builtins.list:
         if args and isinstance(args[0], GList):
@@ -515,6 +546,20 @@ def call_host(eng, fn, args, kwargs, st):
             src = args[0]
             if isinstance(src, SMap):
                 return src.copy()
+            if isinstance(src, GList) and any(not z3.is_true(g) for g, _ in src.items) and not kwargs:
+                # pairs that are conditionally present: a symbolic str -> str map
+                m = SMap.empty("dict")
+                ok = True
+                for g, kv in src.items:
+                    if not (isinstance(kv, tuple) and len(kv) == 2 and isinstance(kv[0], str)
+                            and (isinstance(kv[1], (str, SStr)) or (isinstance(kv[1], FV) and all(isinstance(x, str) for x in kv[1].values)))):
+                        ok = False
+                        break
+                    kz = str_z(kv[0])
+                    m.val = z3.Store(m.val, kz, z3.If(g, str_z(kv[1]), z3.Select(m.val, kz)))
+                    m.dom = z3.Store(m.dom, kz, z3.Or(g, z3.Select(m.dom, kz)))
+                if ok:
+                    return m
             pairs = src.items() if isinstance(src, dict) else eng.iterate(src, st)
             for k, v in pairs:
                 if not is_concrete(k):
@@ -669,6 +714,17 @@ def _pure_host(fn):
         if isinstance(s, (str, tuple, frozenset, int, float)) or s.__class__.__module__ in ("re",):
             return True
     return False
+
+
+class GTuple(GList):
+    """tuple(<sequence with conditionally present elements>): immutable"""
+
+
+class DecimalContextToken(object):
+    """identity of a decimal context (see call_host: getcontext / setcontext)"""
+
+    def __init__(self, name):
+        self.name = name
 
 
 class OneShot(object):
@@ -907,6 +963,11 @@ def scat_method(eng, s, name, args, kwargs, st):
             r = S.scat_split1(s, args[0])
             if r is not None:
                 return [r[0], r[1]]
+    if name == "partition" and len(args) == 1 and isinstance(args[0], str) and len(args[0]) == 1 and not kwargs:
+        # s.partition(c) == (h, c, t) with s.split(c, 1) == [h, t] when c occurs in s
+        r = S.scat_split1(s, args[0])
+        if r is not None:
+            return (r[0], args[0], r[1])
     return NotImplemented
 
 
@@ -922,6 +983,13 @@ def sstr_method(eng, s, name, args, kwargs, st):
         if maxsplit is not None and maxsplit != 1:
             raise Unsupported("split with maxsplit != 1")
         return S.split(s, args[0], maxsplit, st)
+    if name == "partition" and len(args) == 1 and isinstance(args[0], str) and len(args[0]) == 1 and not kwargs:
+        # assumed contract (A1): s.partition(c) is (s, "", "") when c does not occur in s, and
+        # (h, c, t) with [h, t] == s.split(c, 1) when it does
+        sr = S.split(s, args[0], 1, st)
+        if st.decide(z3.simplify(sr.nparts() >= 2), "separator occurs?"):
+            return (sr.part(0), args[0], sr.part(1))
+        return (s, "", "")
     if name == "startswith":
         p = args[0]
         if isinstance(p, tuple):
